@@ -19,6 +19,7 @@ import (
 	"go/parser"
 	"go/token"
 	"go/types"
+	"os"
 	"sort"
 	"strings"
 	"sync"
@@ -139,7 +140,7 @@ func (t sTerm) String() string {
 			if m.Emb {
 				ms = append(ms, m.T.String())
 			} else {
-				ms = append(ms, m.N+"()")
+				ms = append(ms, m.N+strings.TrimPrefix(m.T.String(), "func"))
 			}
 		}
 		return "interface{" + strings.Join(ms, "; ") + "}"
@@ -300,7 +301,11 @@ func (w *c13World) realise(t sTerm, pkg *types.Package, local map[string]types.T
 			if m.Emb {
 				es = append(es, w.realise(m.T, pkg, local))
 			} else {
-				ms = append(ms, types.NewFunc(token.NoPos, pkg, m.N, types.NewSignatureType(nil, nil, nil, nil, nil, false)))
+				sig, _ := w.realise(m.T, pkg, local).(*types.Signature)
+				if sig == nil {
+					panic("harness: a method needs a signature")
+				}
+				ms = append(ms, types.NewFunc(token.NoPos, pkg, m.N, sig))
 			}
 		}
 		return types.NewInterfaceType(ms, es).Complete()
@@ -426,6 +431,11 @@ func sameType(a, b types.Type, depth int) string {
 		}
 		if strings.Join(names(x), ",") != strings.Join(names(y), ",") {
 			return fmt.Sprintf("method sets %v vs %v", names(x), names(y))
+		}
+		for k := 0; k < x.NumMethods(); k++ { // (both complete: methods sorted by name) every method has the same signature
+			if d := sameType(x.Method(k).Type(), y.Method(k).Type(), depth+1); d != "" {
+				return fmt.Sprintf("method %s: %s", x.Method(k).Name(), d)
+			}
 		}
 	default:
 		if a.String() != b.String() {
@@ -569,6 +579,163 @@ func c13Check(run *ev.Run, terms []sTerm, conf string) {
 	}
 }
 
+// mentionsImport reports whether a term names a type of an imported package
+func (t sTerm) mentionsImport() bool {
+	if t.K == "qual" || (t.K == "inst" && t.Pkg != "") {
+		return true
+	}
+	for _, x := range []*sTerm{t.E, t.Key} {
+		if x != nil && x.mentionsImport() {
+			return true
+		}
+	}
+	for _, l := range [][]sTerm{t.Ps, t.Rs, t.Args} {
+		for _, x := range l {
+			if x.mentionsImport() {
+				return true
+			}
+		}
+	}
+	for _, f := range t.Fs {
+		if f.T.mentionsImport() {
+			return true
+		}
+	}
+	for _, m := range t.Ms {
+		if m.T.mentionsImport() {
+			return true
+		}
+	}
+	return false
+}
+
+// c13CheckLocal: the terms that name a type of an imported package, declared as the type of a local variable in a
+// function body in which local types called like the imported packages (type x int; type x1 = int) are in scope: the
+// package qualification must still denote the package.
+func c13CheckLocal(run *ev.Run, terms []sTerm, conf string) {
+	var sel []sTerm
+	for _, t := range terms {
+		if t.mentionsImport() {
+			sel = append(sel, t)
+		}
+	}
+	if len(sel) == 0 {
+		return
+	}
+	w := newC13World()
+	_, base := sharedImporter()
+	imp := c13Importer{w, base}
+	var errs []string
+	pkg := gogen.NewPackage("", "p", &gogen.Config{Fset: token.NewFileSet(), Importer: imp, HandleErr: func(e error) { errs = append(errs, e.Error()) }})
+	ti := types.Typ[types.Int]
+	local := map[string]types.Type{}
+	local["MyInt"] = pkg.NewType("MyInt").InitType(pkg, ti)
+	local["MyStruct"] = pkg.NewType("MyStruct").InitType(pkg, types.NewStruct([]*types.Var{types.NewField(token.NoPos, pkg.Types, "X", ti, false)}, nil))
+	mM := types.NewFunc(token.NoPos, pkg.Types, "M", types.NewSignatureType(nil, nil, nil, nil, nil, false))
+	local["MyIface"] = pkg.NewType("MyIface").InitType(pkg, types.NewInterfaceType([]*types.Func{mM}, nil).Complete())
+	{
+		tp := types.NewTypeParam(types.NewTypeName(token.NoPos, pkg.Types, "T", nil), types.Universe.Lookup("any").Type())
+		local["G"] = pkg.NewType("G").InitType(pkg, types.NewStruct([]*types.Var{types.NewField(token.NoPos, pkg.Types, "V", tp, false)}, nil), tp)
+		tk := types.NewTypeParam(types.NewTypeName(token.NoPos, pkg.Types, "K", nil), types.Universe.Lookup("comparable").Type())
+		tv := types.NewTypeParam(types.NewTypeName(token.NoPos, pkg.Types, "V", nil), types.Universe.Lookup("any").Type())
+		local["P2"] = pkg.NewType("P2").InitType(pkg, types.NewMap(tk, tv), tk, tv)
+	}
+	orig := make([]types.Type, len(sel))
+	failed := make([]string, len(sel))
+	for i, t := range sel {
+		func() {
+			defer func() {
+				if e := recover(); e != nil {
+					failed[i] = fmt.Sprint(e)
+					pkg.CB().ResetStmt()
+				}
+			}()
+			orig[i] = w.realise(t, pkg.Types, local)
+			cb := pkg.NewFunc(nil, fmt.Sprintf("g%d", i), nil, nil, false).BodyStart(pkg)
+			defs := cb.NewTypeDefs()
+			// (the imported packages a/x and b/x are both called x: one of them is written x, the other x1)
+			if i%2 == 0 {
+				defs.NewType("x").InitType(pkg, ti)
+				defs.AliasType("x1", ti)
+			} else {
+				defs.AliasType("x", ti)
+				defs.NewType("x1").InitType(pkg, ti)
+			}
+			defs.Complete()
+			cb.NewVar(orig[i], fmt.Sprintf("l%d", i))
+			cb.End()
+		}()
+	}
+	var buf bytes.Buffer
+	if err := gogen.WriteTo(&buf, pkg, ""); err != nil {
+		run.Fail("write-failed", err.Error(), sel)
+		return
+	}
+	if os.Getenv("VERIF_DEBUG") != "" {
+		fmt.Println(buf.String())
+	}
+	tfset := token.NewFileSet()
+	pf, err := parser.ParseFile(tfset, "a.go", buf.Bytes(), 0)
+	if err != nil {
+		run.Fail("output-does-not-parse", err.Error()+"\n"+buf.String(), nil)
+		return
+	}
+	info := &types.Info{Defs: map[*ast.Ident]types.Object{}}
+	var terrs []types.Error
+	conf2 := types.Config{Importer: imp, Error: func(e error) {
+		if te, ok := e.(types.Error); ok && !te.Soft {
+			terrs = append(terrs, te)
+		}
+	}}
+	conf2.Check("p", tfset, []*ast.File{pf}, info)
+	got := map[string]types.Type{}
+	for id, o := range info.Defs {
+		if o != nil && strings.HasPrefix(id.Name, "l") {
+			got[id.Name] = o.Type()
+		}
+	}
+	fnOf := func(te types.Error) string { // the function whose body holds the error
+		ln := tfset.Position(te.Pos).Line
+		for _, d := range pf.Decls {
+			if fd, ok := d.(*ast.FuncDecl); ok && tfset.Position(fd.Pos()).Line <= ln && ln <= tfset.Position(fd.End()).Line {
+				return fd.Name.Name
+			}
+		}
+		return ""
+	}
+	for i, t := range sel {
+		run.Eval("local:" + t.String())
+		key := func(kind string) string { return kind + "/" + t.shape() }
+		rp := map[string]any{"term": t, "local": true}
+		if failed[i] != "" {
+			run.Fail(key("builder-failed"), fmt.Sprintf("declaring a local variable of type %s: %s [%s]", t, failed[i], conf), rp)
+			continue
+		}
+		bad := ""
+		for _, te := range terrs {
+			if fnOf(te) == fmt.Sprintf("g%d", i) {
+				bad = te.Msg
+				break
+			}
+		}
+		if bad != "" {
+			run.Fail(key("output-ill-typed/local-after-shadowing-type"), fmt.Sprintf("type %s of a local variable declared after local types x, x1: go/types rejects the written function: %s [%s]", t, bad, conf), rp)
+			continue
+		}
+		g := got[fmt.Sprintf("l%d", i)]
+		if g == nil {
+			run.Fail(key("declaration-missing/local"), fmt.Sprintf("l%d of type %s is not in the written function [%s]", i, t, conf), rp)
+			continue
+		}
+		if d := sameType(orig[i], g, 0); d != "" {
+			run.Fail(key("read-back-differs/local-after-shadowing-type"), fmt.Sprintf("type %s read back as %v: %s [%s]", t, g, d, conf), rp)
+		}
+	}
+	if len(errs) > 0 {
+		run.Fail("builder-reported-error", strings.Join(errs, "; "), nil)
+	}
+}
+
 // lineOf reports whether the source line at pos declares the given name.
 func lineOf(afs []*ast.File, fset *token.FileSet, pos token.Position, name string) bool {
 	for _, f := range afs {
@@ -614,12 +781,17 @@ func runC13(tier, replay string) {
 	run := ev.Start("C13", tier, "model_checking")
 	if replay != "" {
 		var r struct {
-			Term sTerm `json:"term"`
+			Term  sTerm `json:"term"`
+			Local bool  `json:"local"`
 		}
 		if err := loadReplay(replay, &r); err != nil {
 			run.Infra(err)
 		}
-		c13Check(run, []sTerm{r.Term}, "replay")
+		if r.Local {
+			c13CheckLocal(run, []sTerm{r.Term}, "replay")
+		} else {
+			c13Check(run, []sTerm{r.Term}, "replay")
+		}
 		run.Eval("x")
 		run.Set("states", 1)
 		run.Set("transitions", 1)
@@ -657,7 +829,7 @@ func runC13(tier, replay string) {
 		flush := func(b []sTerm) {
 			wg.Add(1)
 			sem <- struct{}{}
-			go func() { defer func() { <-sem; wg.Done() }(); c13Check(run, b, c.name) }()
+			go func() { defer func() { <-sem; wg.Done() }(); c13Check(run, b, c.name); c13CheckLocal(run, b, c.name) }()
 		}
 		res, err := tlc.Run(tlc.Opts{SpecDir: SpecDir, Module: "TypeSyntax", Cfg: c.cfg, Workers: tierWorkers(tier), Heavy: true, HeapMB: 8192, Timeout: 40 * time.Minute,
 			OnJSON: func(l string) {
